@@ -66,6 +66,9 @@ func randNames(rng *rand.Rand) []string {
 	ns := make([]string, rng.Intn(9))
 	for i := range ns {
 		ns[i] = randName(rng)
+		if rng.Intn(12) == 0 {
+			ns[i] = "" // the root: a name of no labels (one zero octet on the wire)
+		}
 	}
 	return ns
 }
@@ -155,14 +158,22 @@ func genC19(o *Out, rng *rand.Rand, tier string) {
 		}
 		emitDec(w, "random-wire")
 	}
-	// compression pointers at offsets >= 256 (two-byte pointer arithmetic)
+	// compression pointers over the whole 14-bit offset range (two-byte pointer arithmetic): targets beyond 255, 1023, 4095
 	for i := 0; i < n/10; i++ {
 		var b []byte
 		var starts []int
-		for len(b) < 260+rng.Intn(200) {
+		size := []int{260, 260, 1030, 1030, 4100, 8200}[i%6]
+		if tier == "thorough" && i%12 == 11 {
+			size = 16100
+		}
+		lab := 20
+		if size > 1000 {
+			lab = 63
+		}
+		for len(b) < size+rng.Intn(200) {
 			starts = append(starts, len(b))
 			for j := rng.Intn(3); j >= 0; j-- {
-				l := randLabel(rng, 20)
+				l := randLabel(rng, lab)
 				b = append(b, byte(len(l)))
 				b = append(b, l...)
 			}
@@ -205,8 +216,28 @@ func genC19(o *Out, rng *rand.Rand, tier string) {
 			case op == 0 && len(l.Labels) > 0:
 				j := rng.Intn(len(l.Labels))
 				nm := randName(rng)
-				if rng.Intn(4) == 0 {
+				switch rng.Intn(8) {
+				case 0, 1:
 					nm = l.Labels[j] // "edit" to the same value
+				case 2: // a change of letter case only: a different name list all the same
+					old := l.Labels[j]
+					nm = strings.ToUpper(old)
+					if nm == old {
+						nm = strings.ToLower(old)
+					}
+				case 3: // one byte changed, same length
+					if old := []byte(l.Labels[j]); len(old) > 0 {
+						k := rng.Intn(len(old))
+						if old[k] != '.' {
+							old[k] ^= 1
+							if old[k] == '.' || old[k] == 0 {
+								old[k] = 'q'
+							}
+						}
+						nm = string(old)
+					}
+				case 4: // another name of the list
+					nm = l.Labels[rng.Intn(len(l.Labels))]
 				}
 				l.Labels[j] = nm // in place
 				st = map[string]any{"k": "set", "i": j + 1, "name": B([]byte(nm))}
@@ -218,6 +249,11 @@ func genC19(o *Out, rng *rand.Rand, tier string) {
 				nm := randName(rng)
 				l.Labels = append(l.Labels, nm)
 				st = map[string]any{"k": "app", "i": 0, "name": B([]byte(nm))}
+			case op == 3 && rng.Intn(3) == 0 && len(l.Labels) > 1:
+				// two names change places: the same set of names in another order
+				a, b := rng.Intn(len(l.Labels)), rng.Intn(len(l.Labels))
+				l.Labels[a], l.Labels[b] = l.Labels[b], l.Labels[a]
+				st = map[string]any{"k": "swap", "i": a + 1, "j": b + 1, "name": []int{}}
 			case op == 3 && rng.Intn(2) == 0:
 				// a parse that fails leaves the object as it was
 				bad := [][]byte{{63}, {5, 'a'}, {0xc0}, {2, 'x', 'y', 0xc0, 3, 0xc0, 3}}[rng.Intn(4)]
